@@ -1162,7 +1162,7 @@ def xmon_c17(cases):
     groups = {}
     for c in cases:
         m = _re.match(r"(.*)-i(\d+)$", c["id"])
-        if not m:
+        if not m or c["kind"] == 8:      # kind 8 (constructors, conversions) is not run in hasher groups
             continue
         groups.setdefault((m.group(1), int(m.group(2)) // 5), []).append(c)
     out = []
@@ -1193,6 +1193,27 @@ def xmon_c17(cases):
                 break
     return out
 
+
+
+def mon_c17_conv(case):
+    """conversions into a RawLRU (kind 8, op 142): the recency order of the result is a function of the sequence the
+    source yields (most recent = last yielded; a repeated key counts at its last occurrence) - never of the hash map
+    inside the cache or of the hasher"""
+    if case["kind"] != 8:
+        return None
+    for step, (op, out, cb, acct, snap) in enumerate(case["lines"], 1):
+        if not op or op[0] != 142 or is_panic(out, snap) or len(out) < 2:
+            continue
+        keys = list(op[2::2])
+        lastpos = {}
+        for i, k in enumerate(keys):
+            lastpos[k] = i
+        want = sorted(lastpos, key=lambda k: -lastpos[k])
+        got = list(out[2::2])
+        if got != want:
+            return step, (f"conversion {op[:2]}: the source yields the keys {keys}; the cache must list them most recent first as "
+                          f"{want}, it lists {got}")
+    return None
 
 def mon_c11(case):
     """TinyLFU against the exact aged access counts, on the real outputs: lower bound, upper bound 16,
